@@ -81,6 +81,19 @@ class Run:
             e.update(env)
         rc, out = v.go_test(self.sc, pkgdir, self.overlay(hname, pkgdir), runre, e, race=race,
                             timeout=timeout)
+        if rc != 0 and "panic: test timed out" in out and not allow_fail:
+            # a deterministic (directed) harness that ran into its timeout is run once more: twice a run of a
+            # server harness was seen stuck for minutes in "GC assist wait" inside a bubble (not reproducible
+            # with the same input; no verdict is ever derived from a run that did not finish)
+            keep = os.path.join(v.ROOT, "replays", "%s-harness-%s-timeout.log" % (self.prop, tag))
+            os.makedirs(os.path.dirname(keep), exist_ok=True)
+            with open(keep, "w") as f:
+                f.write(out)
+            v.log("harness timed out (output kept in %s); running it once more" % keep)
+            if os.path.exists(outp):
+                os.remove(outp)
+            rc, out = v.go_test(self.sc, pkgdir, self.overlay(hname, pkgdir), runre, e, race=race,
+                                timeout=timeout)
         self.last_go_output = out
         if (rc != 0 and not allow_fail) or not os.path.exists(outp):
             # keep the whole output of a failed harness run (goroutine dumps are long)
